@@ -428,3 +428,36 @@ func (c Config) Open(dir string, m mapping.IndexMapping) (bleve.Index, error) {
 
 // Path of the on-disk index inside dir.
 func (c Config) Path(dir string) string { return filepath.Join(dir, c.Name) }
+
+// WaitPersisted blocks until everything applied so far is durable: it submits an
+// empty marker batch with a persisted callback (the documented way to learn
+// about durability in unsafe_batch mode) and waits for it. In-memory and
+// non-scorch indexes return immediately.
+func WaitPersisted(idx bleve.Index, c Config) error {
+	if !c.IsScorch() || !c.OnDisk {
+		return nil
+	}
+	b := idx.NewBatch()
+	done := make(chan error, 1)
+	b.SetPersistedCallback(func(err error) { done <- err })
+	if err := idx.Batch(b); err != nil {
+		return err
+	}
+	select {
+	case err := <-done:
+		return err
+	case <-time.After(120 * time.Second):
+		return fmt.Errorf("persisted callback not fired within 120s (watchdog)")
+	}
+}
+
+// DurableOnClose says whether a clean Close followed by Open is promised to
+// preserve everything that was applied (after WaitPersisted for scorch).
+func (c Config) DurableOnClose() bool {
+	if !c.OnDisk {
+		return false
+	}
+	// moss with a lower-level store persists asynchronously and Close does not
+	// wait for it; that store makes no durability promise the property could rely on.
+	return c.KV != moss.Name
+}
